@@ -349,25 +349,6 @@ def run(ctx):
                 e3err = str(e)
         else:
             e3err = "no signature / not straight-line"
-        # the omega solvers branch on their discriminant: compare both arms under the branch policies of C09
-        if name in ("find_omega_general", "find_omega_quart", "find_omega_wedge"):
-            try:
-                from props.c09 import solver_policy, as_list
-                verdicts = []
-                for arm in (False, True):
-                    outs = []
-                    for mod_, fn_ in ((tmod, tfn), (lmod, lsrc)):
-                        g_ = sym_array("g_w", (3,))
-                        args_ = [g_, Rat.atom("twoth")] + ([Rat.atom("w_x"), Rat.atom("w_y")] if name != "find_omega_wedge" else [Rat.atom("wedge")])
-                        o_ = Evaluator(mod_, inline=True, branch_policy=solver_policy(arm))._call_fn(fn_, args_, {})
-                        outs.append([scalar(x_) for part in o_ for x_ in as_list(part)])
-                    verdicts.append(len(outs[0]) == len(outs[1]) and all(a_.equals(b_) for a_, b_ in zip(outs[0], outs[1])))
-                ctx.check(all(verdicts), "C14:semantic:%s:result" % name,
-                          "the two modules return different (omega, eta) expressions for the same (rescaled) g: arms equal %s" % verdicts, where)
-                stats["semantic"] += 1
-                continue
-            except AnalysisError as e:
-                e3err = str(e)
         # not evaluable by E3: classify the structural difference
         if d.tokens and not d.shapes:
             ctx.fail("C14:identical:%s" % name,
